@@ -443,8 +443,7 @@ class BitArray(Bits):
         if isinstance(pos, range) and pos.step > 0 and 0 <= pos.start and 0 <= pos.stop <= len(self):
             # Fast path. Only valid when the range means the same as the slice, so not for negative
             # values (a slice counts those from the end) or positions past the end (a slice clips them).
-            # A step beyond the length selects the same positions as the length itself (and is safe to hand to bitarray).
-            self._bitstore.__setitem__(slice(pos.start, pos.stop, min(pos.step, max(len(self), 1))), v)
+            self._bitstore.__setitem__(slice(pos.start, pos.stop, pos.step), v)
             return
         for p in pos:
             self._bitstore[p] = v
